@@ -4,10 +4,17 @@
 // A callback added by thread t as its idx-th operation gets the id (t+1)*10+idx; its handle is usable by the same thread later (i/r/o with that id).
 // Records begin/end of every call, every visit of a traversal and the final order (after join) as NDJSON for spec/TraceCC.tla.
 //   W_OBJ 0 CallbackList | 1 EventDispatcher (std::map) | 2 EventDispatcher (std::unordered_map)
+//         3 HeterCallbackList | 4 HeterEventDispatcher: two prototypes void() / void(int), every callback of the scenario binds to the second one, so
+//           the abstract object is still one list; the per-prototype slot is created lazily by whichever thread comes first (callbackListListMutex and
+//           listenerMutex come from the Threading policy and are scheduled; the inner lists always use std::mutex / std::atomic, so markers inside
+//           their critical sections are not scheduling points there); no ownsHandle in these classes
 #include "common.h"
 #include "vsched.h"
 #include <eventpp/callbacklist.h>
 #include <eventpp/eventdispatcher.h>
+#include <eventpp/hetercallbacklist.h>
+#include <eventpp/hetereventdispatcher.h>
+#include <functional>
 #include <map>
 #include <sstream>
 
@@ -26,8 +33,16 @@ struct Pol {
 };
 #if W_OBJ == 0
 typedef eventpp::CallbackList<void (int), Pol> Obj;
+typedef Obj::Callback CbType;
+#elif W_OBJ == 3
+typedef eventpp::HeterCallbackList<eventpp::HeterTuple<void (), void (int)>, Pol> Obj;
+typedef std::function<void (int)> CbType;
+#elif W_OBJ == 4
+typedef eventpp::HeterEventDispatcher<int, eventpp::HeterTuple<void (), void (int)>, Pol> Obj;
+typedef std::function<void (int)> CbType;
 #else
 typedef eventpp::EventDispatcher<int, void (int), Pol> Obj;
+typedef Obj::Callback CbType;
 #endif
 typedef Obj::Handle Handle;
 
@@ -48,6 +63,9 @@ static void pointHook(const char * tag)
 	size_t n = std::strlen(tag);
 	bool racy = n > 7 && std::strcmp(tag + n - 7, ".racy_r") == 0;
 	if(racy) { vs::S->point(tag); return; }
+#if W_OBJ >= 3
+	if(tag[0] == 'c') return;      // inside a critical section of an inner list: a real std::mutex is held - no switch, no lockset
+#endif
 	// several callback lists live in one dispatcher when the scenario uses other events: their links are guarded by different mutexes, so the
 	// per-structure lockset would mix them; for the list group only "some policy mutex is held" is demanded then (the map group keeps its lockset)
 	if(g_multiKey && vs::Lockset::group(tag) == 0) {
@@ -78,6 +96,24 @@ static bool doOwns(const Handle & h) { return obj->ownsHandle(h); }
 static bool doEmpty() { return obj->empty(); }
 static void doInvoke() { (*obj)(7); }
 template <typename F> static void doForEach(F f) { obj->forEach(f); }
+#elif W_OBJ == 3
+static Handle doAppend(int id) { return obj->append(Cb{id}); }
+static Handle doPrepend(int id) { return obj->prepend(Cb{id}); }
+static Handle doInsert(int id, const Handle & h) { return obj->insert(Cb{id}, h); }
+static bool doRemove(const Handle & h) { return obj->remove(h); }
+static bool doOwns(const Handle &) { std::fprintf(stderr, "no ownsHandle in HeterCallbackList\n"); std::exit(2); }
+static bool doEmpty() { return obj->empty(); }
+static void doInvoke() { (*obj)(7); }
+template <typename F> static void doForEach(F f) { obj->forEach<void (int)>(f); }
+#elif W_OBJ == 4
+static Handle doAppend(int id) { return obj->appendListener(1, Cb{id}); }
+static Handle doPrepend(int id) { return obj->prependListener(1, Cb{id}); }
+static Handle doInsert(int id, const Handle & h) { return obj->insertListener(1, Cb{id}, h); }
+static bool doRemove(const Handle & h) { return obj->removeListener(1, h); }
+static bool doOwns(const Handle &) { std::fprintf(stderr, "no ownsHandle in HeterEventDispatcher\n"); std::exit(2); }
+static bool doEmpty() { return ! obj->hasAnyListener(1); }
+static void doInvoke() { obj->dispatch(1, 7); }
+template <typename F> static void doForEach(F f) { obj->forEach<void (int)>(1, f); }
 #else
 static Handle doAppend(int id) { return obj->appendListener(1, Cb{id}); }
 static Handle doPrepend(int id) { return obj->prependListener(1, Cb{id}); }
@@ -90,7 +126,7 @@ template <typename F> static void doForEach(F f) { obj->forEach(1, f); }
 #endif
 
 static thread_local Handle t_other;
-static int idOf(const Obj::Callback & cb) { const Cb * c = cb.target<Cb>(); return c ? c->id : -1; }
+static int idOf(const CbType & cb) { const Cb * c = cb.target<Cb>(); return c ? c->id : -1; }
 
 static void runOp(int t, const std::string & op, int index)
 {
@@ -107,10 +143,10 @@ static void runOp(int t, const std::string & op, int index)
 	else if(k == 'v') { evb(t, "v", 0, 0); doInvoke(); eve(t, "v", 0, 0); }
 	else if(k == 'f') {
 		evb(t, "f", 0, 0);
-		doForEach([t](const Handle &, const Obj::Callback & cb) { std::fprintf(g_out, "{\"e\":\"vi\",\"t\":%d,\"a\":%d}\n", t, idOf(cb)); vs::S->point("enum"); });
+		doForEach([t](const Handle &, const CbType & cb) { std::fprintf(g_out, "{\"e\":\"vi\",\"t\":%d,\"a\":%d}\n", t, idOf(cb)); vs::S->point("enum"); });
 		eve(t, "f", 0, 0);
 	}
-#if W_OBJ != 0
+#if W_OBJ != 0 && W_OBJ != 3
 	// the same calls on ANOTHER event of the same dispatcher: they go through the shared map (insertion of a new key, lookups) while the calls on
 	// event 1 run; what they do to event 2's own list is only judged locally (a thread removes the listener it added itself: must succeed)
 	else if(k == 'x') { evb(t, "x", 0, id); t_other = obj->appendListener(2 + t, Cb{-1}); eve(t, "x", 0, 0); }      // every thread brings its own new key
@@ -171,7 +207,7 @@ static bool execute(vs::Strategy * strategy, long execNo)
 	}
 	for(auto & th : threads) th.join();
 	std::string fin;
-	doForEach([&fin](const Handle &, const Obj::Callback & cb) { if(! fin.empty()) fin += ','; fin += std::to_string(idOf(cb)); });
+	doForEach([&fin](const Handle &, const CbType & cb) { if(! fin.empty()) fin += ','; fin += std::to_string(idOf(cb)); });
 	std::fprintf(g_out, "{\"e\":\"fl\",\"s\":[%s]}\n", fin.c_str());
 	delete obj; obj = 0;
 	delete g_handles; g_handles = 0;
